@@ -48,6 +48,38 @@ type Solver struct {
 	CacheHits, ModelHits         int
 	Time                         time.Duration
 	Errors                       []string
+
+	// cross-solver re-discharge (thorough tier): a sample of assertion queries as stand-alone SMT-LIB scripts
+	RecheckMax int
+	Recheck    []recheckQuery
+	recheckSeen int
+}
+
+type recheckQuery struct {
+	Script string
+	Sat    bool
+}
+
+// keepForRecheck keeps a reservoir sample of assertion queries with the verdict this solver gave.
+func (s *Solver) keepForRecheck(lits []*Sym, sat bool) {
+	if s.RecheckMax == 0 {
+		return
+	}
+	for _, l := range lits {
+		if l.isFalse() {
+			return
+		}
+	}
+	s.recheckSeen++
+	q := recheckQuery{Sat: sat}
+	switch {
+	case len(s.Recheck) < s.RecheckMax:
+		q.Script = s.Dump(lits)
+		s.Recheck = append(s.Recheck, q)
+	case s.recheckSeen%17 == 0:
+		q.Script = s.Dump(lits)
+		s.Recheck[s.recheckSeen/17%s.RecheckMax] = q
+	}
 }
 
 type solverFailure struct{ msg string }
